@@ -98,8 +98,21 @@ func isLenOf(e ast.Expr, slice string) bool {
 	if !ok || f.Name != "len" {
 		return false
 	}
-	a, ok := c.Args[0].(*ast.Ident)
-	return ok && a.Name == slice
+	// the slice is named by its source text: an identifier (args) or a selector chain (classification.Intents)
+	return exprText(c.Args[0]) == slice
+}
+
+// exprText: identifiers and selector chains print as themselves, anything else as "" (never equal to a slice name)
+func exprText(e ast.Expr) string {
+	switch x := e.(type) {
+	case *ast.Ident:
+		return x.Name
+	case *ast.SelectorExpr:
+		if p := exprText(x.X); p != "" {
+			return p + "." + x.Sel.Name
+		}
+	}
+	return ""
 }
 
 func intLit(e ast.Expr) (int, bool) {
@@ -263,7 +276,7 @@ func (c *collector) expr(e ast.Node, gs []guard) {
 		c.stmts(x.Body.List, gs)
 		return
 	case *ast.IndexExpr:
-		if id, ok := x.X.(*ast.Ident); ok && id.Name == c.slice {
+		if exprText(x.X) == c.slice {
 			if k, ok := intLit(x.Index); ok {
 				c.sites = append(c.sites, site{fn: c.fn, line: fset.Position(x.Pos()).Line, kind: "SIndex", k: k, guards: gs})
 			} else {
@@ -273,7 +286,7 @@ func (c *collector) expr(e ast.Node, gs []guard) {
 			return
 		}
 	case *ast.SliceExpr:
-		if id, ok := x.X.(*ast.Ident); ok && id.Name == c.slice {
+		if exprText(x.X) == c.slice {
 			k, ok := 0, x.Low == nil
 			if x.Low != nil {
 				k, ok = intLit(x.Low)
@@ -658,6 +671,50 @@ func analyseRegistry(path string, ws map[string]*wrapper) ([]reg, []site, []dynS
 	return regs, sites, dyn, f
 }
 
+// localSites: constant index sites X[k] on any OTHER slice of the functions of a file (words[0], states[0],
+// classification.Intents[0], possibilities[0] ...) with the len(X) guards around them.  The site is named
+// "<function>:<X>"; X is an identifier or selector chain.  Strings indexed by a constant would show up here too.
+func localSites(f *ast.File) []site {
+	var out []site
+	for _, d := range f.Decls {
+		fd, ok := d.(*ast.FuncDecl)
+		if !ok || fd.Body == nil {
+			continue
+		}
+		args := variadicXValues(fd.Type)
+		seen := map[string]bool{}
+		var names []string
+		ast.Inspect(fd.Body, func(n ast.Node) bool {
+			var x ast.Expr
+			switch e := n.(type) {
+			case *ast.IndexExpr:
+				if _, isConst := intLit(e.Index); isConst {
+					x = e.X
+				}
+			case *ast.SliceExpr:
+				x = e.X
+			}
+			if x != nil {
+				if t := exprText(x); t != "" && t != args && !seen[t] {
+					seen[t] = true
+					names = append(names, t)
+				}
+			}
+			return true
+		})
+		for _, name := range names {
+			c := &collector{fn: fd.Name.Name + ":" + name, slice: name}
+			c.stmts(fd.Body.List, nil)
+			for _, s := range c.sites {
+				if s.kind == "SIndex" {
+					out = append(out, s)
+				}
+			}
+		}
+	}
+	return out
+}
+
 // ---------------------------------------------------------------------------------------------
 // semantic checks: the functions are RUN (interp.go) on a grid and their decisions compared with the model's
 
@@ -913,7 +970,8 @@ func main() {
 
 	ws := analyseWrappers(filepath.Join(*repo, "excellent/functions/wrappers.go"))
 	regsF, sitesF, dynF, builtinFile := analyseRegistry(filepath.Join(*repo, "excellent/functions/builtin.go"), ws)
-	regsT, sitesT, dynT, _ := analyseRegistry(filepath.Join(*repo, "flows/routers/cases/tests.go"), ws)
+	regsT, sitesT, dynT, testsFile := analyseRegistry(filepath.Join(*repo, "flows/routers/cases/tests.go"), ws)
+	locals := append(localSites(builtinFile), localSites(testsFile)...)
 	maxPlaces, guarded := checkRounding(builtinFile)
 	maxExp, opGuards := checkOperators(parseFile(filepath.Join(*repo, "excellent/operators/builtin.go")), builtinFile)
 	baseArity := checkBaseArity(parseFile(filepath.Join(*repo, "excellent/functions/wrappers.go")))
@@ -959,6 +1017,18 @@ func main() {
 	for i, s := range sites {
 		sep := ";"
 		if i == len(sites)-1 {
+			sep = ""
+		}
+		gs := make([]string, len(s.guards))
+		for j, g := range s.guards {
+			gs[j] = strings.TrimSuffix(strings.TrimPrefix(string(g), "("), ")")
+		}
+		fmt.Fprintf(&b, "  Site %q %d %s %s [%s]%s\n", s.fn, s.line, s.kind, z(s.k), strings.Join(gs, "; "), sep)
+	}
+	b.WriteString("].\n\nDefinition local_index_sites : list site := [\n")
+	for i, s := range locals {
+		sep := ";"
+		if i == len(locals)-1 {
 			sep = ""
 		}
 		gs := make([]string, len(s.guards))
